@@ -314,14 +314,27 @@ func c16Structure(c *Ctx) {
 				okHi, okLo, serial = app.okHi, app.okLo, app.serial
 			}
 		}
+		// a third way of writing the result: dst[pad+2*i] and dst[pad+2*i+1] with pad = 8 - 2*len(serial) computed once
+		var of *mhOffset
+		if !(okHi && okLo) && app == nil && len(loopWrites) > 0 {
+			var ws []mhWrite
+			for _, x := range loopWrites {
+				ws = append(ws, mhWrite{x.idx, x.val, x.st})
+			}
+			if of = modhexOffsetForm(w, mh, dst, dstLen, ws); of != nil {
+				okHi, okLo, serial = true, true, of.serial
+			}
+		}
 		c.Check(okHi && okLo, "R4.modhex", "ModHex|each byte becomes high nibble then low nibble", w.FnPos(mh), "dst[i] = alphabet[(b>>4)&0xf]; dst[i+1] = alphabet[b&0xf]", "the two characters of a byte are not its high and low nibble in that order")
-		if (idxPhi == nil && app == nil) || serial == nil {
+		if (idxPhi == nil && app == nil && of == nil) || serial == nil {
 			c.Und("R4.modhex", "ModHex|write index and serial", w.FnPos(mh), "the loop writing the result was not recognised")
 		} else {
 			// step 2
 			step := false
 			var start ssa.Value
-			if app != nil {
+			if of != nil {
+				step = true // the write index is pad + 2*i (+1): read off its linear form
+			} else if app != nil {
 				step, start = true, app.start // two characters appended per iteration, by construction
 				c.Check(app.returned, "R4.modhex", "ModHex|the appended buffer is the result", w.FnPos(mh), "return string(dst)", "the buffer the characters are appended to is not what ModHex returns")
 			} else {
@@ -417,6 +430,9 @@ func c16Structure(c *Ctx) {
 					okArms, arms = true, arms2
 				}
 			}
+			if of != nil {
+				okArms, arms = of.okArms, of.arms
+			}
 			good := okArms && len(arms) == 2 && arms[3] == 2 && arms[4] == 0
 			for ln, off := range arms {
 				if 2*ln+off != dstLen {
@@ -445,6 +461,9 @@ func c16Structure(c *Ctx) {
 			}
 			if app != nil {
 				nPad = app.nPad
+			}
+			if of != nil && of.padLoop {
+				nPad = 2 // positions [0, pad) receive alphabet[0]; pad is 2 for the 3-byte form and 0 for the 4-byte form (arms above)
 			}
 			c.Check(nPad == 2, "R4.modhex", "ModHex|old serials padded with two zero digits", w.FnPos(mh), "dst[0], dst[1] = alphabet[0]", "the 3-byte form is not padded with two ModHex zero digits")
 			// serial = ext.Value[2:] of the matching extension; absent -> error; other lengths -> error
@@ -481,6 +500,9 @@ func c16Structure(c *Ctx) {
 				okDom := false
 				if sp, ok := start.(*ssa.Phi); ok {
 					okDom = sp.Block().Dominates(r.Block())
+				}
+				if of != nil {
+					okDom = of.head.Dominates(r.Block())
 				}
 				isNil, known := f.KnownNil(r.Block(), serial)
 				if !known && encSite != nil {
@@ -695,4 +717,137 @@ func c16Structure(c *Ctx) {
 		}
 		c.Check(okApp, "R5.pem", "ParsePEMCertificates|each block's certificate appended, parse errors returned", w.FnPos(pp), "certs = append(certs, ParseCertificate(block.Bytes))", "a decoded block is not parsed and appended (or its parse error is dropped)")
 	}
+}
+
+type mhWrite struct {
+	idx ssa.Value
+	val ssa.Value
+	st  *ssa.Store
+}
+
+// mhOffset: ModHex written with a computed offset - for the i-th serial byte b, dst[pad+2*i] = alphabet[b>>4&15] and
+// dst[pad+2*i+1] = alphabet[b&15], pad = len(dst) - 2*len(serial), the positions before pad filled with alphabet[0].
+type mhOffset struct {
+	serial  ssa.Value
+	head    *ssa.BasicBlock // head of the loop over the serial bytes
+	arms    map[int64]int64 // admitted serial length -> offset of its first character
+	okArms  bool
+	padLoop bool
+}
+
+func modhexOffsetForm(w *World, mh *ssa.Function, dst ssa.Value, dstLen int64, writes []mhWrite) *mhOffset {
+	var serial, idx ssa.Value
+	var hiIdx, loIdx ssa.Value
+	var at *ssa.Store
+	for _, x := range writes {
+		ix, isIdx := x.val.(*ssa.Index)
+		if !isIdx {
+			continue
+		}
+		kind, byteVal := nibbleOf(ix.Index)
+		if kind == "" {
+			continue
+		}
+		ld, ok := strip(byteVal).(*ssa.UnOp)
+		if !ok {
+			return nil
+		}
+		ia, ok := ld.X.(*ssa.IndexAddr)
+		if !ok || !isForwardRangeIndex(ia.Index) {
+			return nil
+		}
+		if serial != nil && (ia.X != serial || ia.Index != idx) {
+			return nil
+		}
+		serial, idx = ia.X, ia.Index
+		if kind == "hi" {
+			hiIdx, at = x.idx, x.st
+		} else {
+			loIdx = x.idx
+		}
+	}
+	if serial == nil || hiIdx == nil || loIdx == nil {
+		return nil
+	}
+	name := func(v ssa.Value) string {
+		if v == idx {
+			return "i"
+		}
+		if la := lenArg(v); la != nil && (la == serial || w.SameValue(mh, la, serial)) {
+			return "L"
+		}
+		return ""
+	}
+	isForm := func(v ssa.Value, c int64, withI bool) bool {
+		f := lin(w, v, name)
+		want := map[string]int64{"L": -2}
+		if withI {
+			want["i"] = 2
+		}
+		if f.c != c || len(f.terms) != len(want) {
+			return false
+		}
+		for k, n := range want {
+			if f.terms[k] != n {
+				return false
+			}
+		}
+		return true
+	}
+	if !isForm(hiIdx, dstLen, true) || !isForm(loIdx, dstLen+1, true) {
+		return nil
+	}
+	of := &mhOffset{serial: serial, arms: map[int64]int64{}}
+	switch x := idx.(type) {
+	case *ssa.BinOp:
+		of.head = x.Block()
+	case *ssa.Phi:
+		of.head = x.Block()
+	}
+	if of.head == nil {
+		return nil
+	}
+	// admitted lengths where the bytes are written
+	lf := w.newByteFlow(mh, func(v ssa.Value) bool {
+		la := lenArg(v)
+		return la != nil && (la == serial || w.SameValue(mh, la, serial))
+	}, nil)
+	set := lf.At(at)
+	if !set.empty() && !set.full() && set.count() <= 8 && !lf.Mentioned.has(255) {
+		of.okArms = true
+		for _, ln := range set.list() {
+			of.arms[ln] = dstLen - 2*ln
+		}
+	}
+	// the padding: dst[j] = alphabet[0] for j = 0 .. pad-1
+	for _, b := range mh.Blocks {
+		for _, ins := range b.Instrs {
+			st, ok := ins.(*ssa.Store)
+			if !ok {
+				continue
+			}
+			ia, ok := st.Addr.(*ssa.IndexAddr)
+			if !ok || ia.X != dst || ia.Index == hiIdx || ia.Index == loIdx {
+				continue
+			}
+			zero := false
+			if ix, ok := st.Val.(*ssa.Index); ok {
+				if z, ok := intConst(ix.Index); ok && z == 0 {
+					zero = true
+				}
+			} else if cst, ok := st.Val.(*ssa.Const); ok && cst.Value != nil {
+				zero = true
+			}
+			phi, isPhi := ia.Index.(*ssa.Phi)
+			if !zero || !isPhi || !isForwardRangeIndex(phi) {
+				continue
+			}
+			if iff, ok := phi.Block().Instrs[len(phi.Block().Instrs)-1].(*ssa.If); ok {
+				if cond, ok := iff.Cond.(*ssa.BinOp); ok && cond.Op == token.LSS && cond.X == ssa.Value(phi) && isForm(cond.Y, dstLen, false) && phi.Block().Dominates(of.head) {
+					of.padLoop = true
+				}
+			}
+		}
+	}
+	return of
 }
